@@ -939,9 +939,87 @@ def valid_sequence(fmt, items):
     return True
 
 
+
+# ---- stream S (wave 7, round 2): DFXP end to end on STRINGS ------------------------------------------------------------
+S_ATOMS = ["&", "<", ">", "&amp;", "&lt;", "&amp;lt;", "&#60;", "&#x26;", "]]>", "<br/>", "</p>", "<span>", "</span>", "<!--", "-->",
+           '"', "'", "a", "b", "Tom", "x  y", "R&D", "1 < 2", "\u00e9", "a\u00a0b", "\u4e2d", ";", "#", "=", "/", "\\"]
+
+
+def rand_piece(rng):
+    n = rng.randint(1, 4)
+    w = rng.choice([" ", "", "", " ", "  "]).join(rng.choice(S_ATOMS) for _ in range(n))
+    if rng.random() < 0.15:
+        w += rng.choice([" ", "  ", "\t"])                  # trailing blanks before a wrap / a <br/> are inside the domain
+    return w
+
+
+def rand_wlines(rng):
+    """a cue as a list of lines (first piece, [(indentation, piece), ...]); pieces never begin with white space"""
+    nl = rng.randint(1, 3)
+    ls = []
+    for _ in range(nl):
+        if ls and rng.random() < 0.12:
+            ls.append(["", []])
+            continue
+        tail = [[rng.choice(["", " ", "  ", "    ", "\t", " \t ", "      "]), rand_piece(rng)] for _ in range(rng.choice([0, 0, 1, 1, 2, 3]))]
+        ls.append([rand_piece(rng), tail])
+    if not any(l[0] for l in ls):
+        ls[0] = ["x", []]
+    return ls
+
+
+def judge_strings(cues):
+    """cues: list of wlines lists -> list of (violation or None, info)"""
+    resp = oracle_batch([(412, c) for c in cues])
+    docs = []
+    for k in range(0, len(cues), 12):
+        docs.append((k, doc_of("DFXP", [r[0] for r in resp[k:k + 12]])))
+    out = [None] * len(cues)
+    for k, doc in docs:
+        got = read_doc("DFXP", doc)
+        chunk = list(range(k, min(k + 12, len(cues))))
+        if not isinstance(got, Ok) or len(got.v) != len(chunk):
+            for i in chunk:
+                out[i] = ({"kind": "cue-count" if isinstance(got, Ok) else "reader-raises",
+                           "what": "DFXP reader: %s on a document rendered by the Coq spec (render_p)" %
+                                   ("%d captions for %d cues" % (len(got.v), len(chunk)) if isinstance(got, Ok) else "raises")}, None)
+            continue
+        lines = [G.py_lines(text_break(n)) for n in got.v]
+        oks = oracle_batch([(413, [resp[i][1], l]) for i, l in zip(chunk, lines)])
+        for i, l, ok in zip(chunk, lines, oks):
+            info = {"exact": l == resp[i][1], "model_is_shown": resp[i][2] != [] and resp[i][2][0] == resp[i][1], "indomain": resp[i][3] == 1}
+            v = None
+            if ok != 1:
+                v = {"kind": "text-differs", "what": "DFXP (strings): reader lines %r, a consumer shows %r" % (l, resp[i][1]),
+                     "observed": l, "expected": resp[i][1], "content": resp[i][0]}
+            out[i] = (v, info)
+    return out
+
+
+def run_strings_dfxp(ctx, res, n):
+    rng = ctx.rng
+    cues = [rand_wlines(rng) for _ in range(n)]
+    d = res["distribution"]
+    for c, (v, info) in zip(cues, judge_strings(cues)):
+        res["evaluations"] += 1
+        d["S_dfxp_string_cues"] = d.get("S_dfxp_string_cues", 0) + 1
+        d["S_wraps"] = d.get("S_wraps", 0) + sum(len(l[1]) for l in c)
+        res["nontrivial"].add(("DFXP-str", repr(c)))
+        if info is not None:
+            d["S_reader_lines_exactly_shown" if info["exact"] else "S_reader_lines_differ_in_white_space_only"] = \
+                d.get("S_reader_lines_exactly_shown" if info["exact"] else "S_reader_lines_differ_in_white_space_only", 0) + 1
+            if not info["indomain"]:
+                d["S_outside_line_ok"] = d.get("S_outside_line_ok", 0) + 1
+            elif not info["model_is_shown"] and len(res["disagreements"]) < 50:
+                res["disagreements"].append({"fmt": "DFXP", "what": "read_p (render_p ls) differs from the shown lines on an in-domain cue "
+                                             "(instance of C04_dfxp_str_end_to_end)", "input": c})
+        if v is not None:
+            res["violations"].append(dict(v, fmt="DFXP", shape="dfxp-strings", replay="dfxp-str", input=c))
+
+
 def run(ctx):
     res = {"evaluations": 0, "nontrivial": set(), "violations": [], "disagreements": [], "distribution": {},
-           "streams": 4, "notes": []}
+           "streams": 5, "notes": []}
     rng = ctx.rng
     READER_HISTORY[0] = rng
     HIST_COUNT.clear()
@@ -992,6 +1070,7 @@ def run(ctx):
         seen.add(key)
         res["violations"][i] = shrink(v)
     classify_known([v for v in res["violations"] if v["kind"] == "text-differs"])      # a shrunk input may show a known failure
+    run_strings_dfxp(ctx, res, ctx.n(720, 40000))
     res["rule"] = ("A: 12-cue documents of random structured inline content per format (1-3 lines, nested inline tags in every "
                    "start-tag shape, per-character spellings raw/named/decimal/hex, source line wraps also next to inline "
                    "elements, comments/PIs, U+2028/U+0085/FF/U+00A0 in text, WebVTT voice/timestamp/unknown tags); B: token "
@@ -1010,6 +1089,9 @@ def run(ctx):
                     "name; line loop = per-cue decode on well-formed documents",
                     "SAMI stage 1 keeps & < > escaped whatever their spelling (second parse gives the text once)",
                     "text-node matcher keeps all words of text wrapped over several source lines",
+                    "wave 7: DFXP END TO END ON STRINGS - read_p (render_p lines) = the shown lines EXACTLY for every list of lines "
+                    "(strict XML parser + reader model on the rendered string; every character, LF wraps with any indentation, pieces "
+                    "that do not begin with white space; C04_dfxp_str_end_to_end, C04_dfxp_text_node_wrapped)",
                     "DFXP/SAMI tree walk keeps all non-white-space characters (cannot see glued words)",
                     "the two WebVTT regular expressions are pinned: an edit breaks props/C04.v"],
         "correspondence_only": ["the statement for DFXP and SAMI, and for all five formats on the REAL readers: oracle on "
@@ -1110,6 +1192,9 @@ def replay(ctx, rec):
                 items.append(tuple(it))
         ok, detail = check_one(rec["fmt"], items)
         return (not ok), detail
+    if rec.get("replay") == "dfxp-str":
+        v, _ = judge_strings([rec["input"]])[0]
+        return (v is not None), (v or {}).get("what")
     if rec.get("replay") == "vttdoc":
         got = read_doc("WebVTT", rec["document"])
         if not isinstance(got, Ok):
